@@ -1213,9 +1213,10 @@ fn main() {
         // build (more than 1 % above the average): the error must still be reported
         if !debug {
             for v in (0..VARIANTS.len()).filter(|&v| VARIANTS[v].int_keys && VARIANTS[v].sharded) {
-                for &(n, m) in &[(200_000usize, 3000usize), (200_000, 700), (400_000, 1500)] {
+                // (the last two: hardly any distinct key, so that most shards are empty, with fewer threads than shards)
+                for &(n, m) in &[(200_000usize, 3000usize), (200_000, 700), (400_000, 1500), (1, 150_000), (3, 250_000)] {
                     let mut cfg = base_cfg(&mut r, false, true);
-                    cfg.threads = pick(&mut r, &[Some(1), Some(4), Some(16)]);
+                    cfg.threads = if n <= 3 { pick(&mut r, &[Some(1), Some(2)]) } else { pick(&mut r, &[Some(1), Some(4), Some(16)]) };
                     let mut s = mk(&mut r, "duplicates", n, cfg, Where::Keys, FaultKind::NoFault, Retry::None, Some(DupShape::Multi(m)));
                     s.max_dup_passes = 8;
                     run(&mut ctx, v, s);
